@@ -107,6 +107,28 @@ def confirm(path_in, path_out, dmax, cmax, seed):
     json.dump(req, open(path_out, 'w'))
 
 
+def real_sweep(path_in, dmax, cmax, seed):
+    """For structures on which the fold disagrees with the code: record the code's own times for the whole grid."""
+    import itertools
+    req = json.load(open(path_in))          # [{name, path}]
+    items = dict(build_items(dmax, cmax, random.Random(seed)))
+    for r in req:
+        st = json.load(open(r['path']))
+        R = Recorder()
+        S = items[r['name']].circuit_structure
+        rec = []
+        g = st['grid']
+        for rst, fl, mw, ro in itertools.product(g, g, g, g):
+            cfg = {'RO': ro, 'MW': mw, 'FL': fl, 'RST': rst}
+            with temporary_override_get_registry_at({GKN[k]: v / SCALE for k, v in cfg.items()}):
+                sn = R.snapshot(S, cold=True, acq=False)
+            times = {i: [o['start_c'], o['start_c'] + o['dur_v']] for i, o in sn['leaves'].items()}
+            rec.append({'cfg': cfg, 'times': times})
+        st['recorded'] = rec
+        st['samples'] = []
+        json.dump(st, open(r['path'].replace('.json', '_rec.json'), 'w'))
+
+
 def main(outdir, dmax, cmax, grid, seed, nsamples):
     rnd = random.Random(seed)
     grid = [int(x) for x in grid.split(',')]
@@ -123,7 +145,9 @@ def main(outdir, dmax, cmax, grid, seed, nsamples):
 
 
 if __name__ == '__main__':
-    if sys.argv[1] == 'confirm':
+    if sys.argv[1] == 'realsweep':
+        real_sweep(sys.argv[2], int(sys.argv[3]), int(sys.argv[4]), int(sys.argv[5]))
+    elif sys.argv[1] == 'confirm':
         confirm(sys.argv[2], sys.argv[3], int(sys.argv[4]), int(sys.argv[5]), int(sys.argv[6]))
     else:
         main(sys.argv[1], int(sys.argv[2]), int(sys.argv[3]), sys.argv[4], int(sys.argv[5]), int(sys.argv[6]))
